@@ -185,6 +185,8 @@ pub struct Runner<'a> {
     pub stranger: Uuid,
     /// C09: only the operating client's own ids are abstracted; all others stay concrete
     pub own_only: bool,
+    /// property of the plan this run belongs to (attribution of panics)
+    pub prop: &'static str,
     sym_cache: HashMap<Uuid, String>,
 }
 
@@ -220,7 +222,7 @@ impl<'a> Runner<'a> {
             seen.insert(c.id);
         }
         let rng = Rng::new(hist.seed).fork(0x4D4F4E);
-        Runner { subj, hist, mon, clients, seen, viol: vec![], cov: Cov::default(), rng, log: vec![], walk_every: 1, solo: None, cur: 0, cur_client: 0, conv_before_ok: true, conv_after_ok: true, stranger: Rng::new(hist.seed).fork(0x57A6).uuid(), own_only: false, sym_cache: HashMap::new() }
+        Runner { subj, hist, mon, clients, seen, viol: vec![], cov: Cov::default(), rng, log: vec![], walk_every: 1, solo: None, cur: 0, cur_client: 0, conv_before_ok: true, conv_after_ok: true, stranger: Rng::new(hist.seed).fork(0x57A6).uuid(), own_only: false, prop: "", sym_cache: HashMap::new() }
     }
 
     fn v(&mut self, property: &'static str, msg: String) {
@@ -866,7 +868,11 @@ impl<'a> Runner<'a> {
         let mut reopen_rng = Rng::new(self.hist.seed).fork(0x5E0 + self.subj.kind.reopen_pct as u64);
         let mut trace_hash: u64 = 0xcbf29ce484222325;
         let ops = self.hist.ops.clone();
+        let mut panicked = false;
         for (i, op) in ops.iter().enumerate() {
+            if panicked {
+                break;
+            }
             self.cur = i;
             if let Some(s) = &self.solo {
                 if op.client != s.client {
@@ -919,6 +925,16 @@ impl<'a> Runner<'a> {
                 let pre = self.clients[c].clone();
                 let seen_before_has = |id: &Uuid, me: &Self| me.seen.contains(id);
                 let resp = self.exec(c, req);
+                if let Resp::Error(e) = &resp {
+                    if e.contains("panic") {
+                        // the request produced no outcome at all; the storage object may be unusable
+                        // from here on (poisoned lock), so the run ends with this finding
+                        let p = self.prop;
+                        self.v(if p.is_empty() { "C15" } else { p }, format!("{} for client #{c} on {} made the server panic ({e}): the request has no outcome and the response says nothing about what was stored", req.name(), self.subj.kind.name()));
+                        panicked = true;
+                        break;
+                    }
+                }
                 if self.subj.kind.entry == Entry::Http {
                     https.push(self.subj.last_http.clone());
                 } else {
@@ -1259,6 +1275,9 @@ impl<'a> Runner<'a> {
                 op_abs.push_str(&a.0);
                 op_abs.push(';');
                 op_resps.push(resp);
+            }
+            if panicked {
+                break;
             }
             all_reqs.push(creqs.iter().map(|(r, _)| r.clone()).collect());
             resps.push(op_resps);
